@@ -323,35 +323,83 @@ func runOperators(r *core.Run) {
 		seen[spell[n]] = n
 	}
 	forms := []struct {
-		table string
-		form  func(c byte) string
+		name string
+		form func(c byte) string
 	}{
-		{"opTokens", func(c byte) string { return string([]byte{c}) }},
-		{"opEqTokens", func(c byte) string { return string([]byte{c, '='}) }},
-		{"opOpTokens", func(c byte) string { return string([]byte{c, c}) }},
-		{"opOpEqTokens", func(c byte) string { return string([]byte{c, c, '='}) }},
+		{"c", func(c byte) string { return string([]byte{c}) }},
+		{"c=", func(c byte) string { return string([]byte{c, '='}) }},
+		{"cc", func(c byte) string { return string([]byte{c, c}) }},
+		{"cc=", func(c byte) string { return string([]byte{c, c, '='}) }},
+	}
+	// the operator look-up maps are found by type (package-level map[byte]TokenType), and the spelling form each
+	// one stands for (c, c=, cc, cc=) by what the majority of its entries spell; every entry must then agree
+	var maps []string
+	sc := pk.Types.Scope()
+	for _, n := range sc.Names() {
+		v, ok := sc.Lookup(n).(*types.Var)
+		if !ok {
+			continue
+		}
+		m, ok := v.Type().Underlying().(*types.Map)
+		if !ok {
+			continue
+		}
+		kb, ok1 := m.Key().Underlying().(*types.Basic)
+		en, ok2 := m.Elem().(*types.Named)
+		if ok1 && kb.Kind() == types.Uint8 && ok2 && en.Obj().Name() == "TokenType" && en.Obj().Pkg() == pk.Types {
+			maps = append(maps, n)
+		}
 	}
 	total := 0
 	covered := map[string]bool{}
-	for _, f := range forms {
-		l, err := evalGlobal(pk, f.table)
+	claimed := map[string]string{}
+	for _, mn := range maps {
+		l, err := evalGlobal(pk, mn)
 		if err != nil {
-			r.Unknown(f.table, token.NoPos, err.Error())
+			r.Unknown(mn, token.NoPos, err.Error())
 			continue
 		}
+		best, bestN := -1, -1
+		for fi, f := range forms {
+			n := 0
+			for i, k := range l.Keys {
+				kv, ok1 := k.Int()
+				v := l.Vals[i]
+				if ok1 && v.Obj != nil && spell[v.Obj.Name()] == f.form(byte(kv)) {
+					n++
+				}
+			}
+			if n > bestN {
+				best, bestN = fi, n
+			}
+		}
+		if best < 0 || 2*bestN <= len(l.Keys) {
+			r.Unknown("operator map "+mn, l.Pos, "cannot tell which spelling form (c, c=, cc, cc=) this map[byte]TokenType stands for: no form is spelled by a majority of its entries")
+			continue
+		}
+		f := forms[best]
+		if prev, dup := claimed[f.name]; dup {
+			r.Fail("operator map for form "+f.name, l.Pos, fmt.Sprintf("both %s and %s look like the map for the form %s", prev, mn, f.name))
+		}
+		claimed[f.name] = mn
 		for i, k := range l.Keys {
 			kv, ok1 := k.Int()
 			v := l.Vals[i]
 			if !ok1 || v.Obj == nil {
-				r.Unknown(fmt.Sprintf("%s entry %d", f.table, i), k.Pos, "non-constant entry")
+				r.Unknown(fmt.Sprintf("operator map (form %s) entry %d", f.name, i), k.Pos, "non-constant entry")
 				continue
 			}
 			total++
 			want := f.form(byte(kv))
 			got, has := spell[v.Obj.Name()]
 			covered[v.Obj.Name()] = true
-			r.Check(has && got == want, fmt.Sprintf("%s[%q]", f.table, string([]byte{byte(kv)})), k.Pos, v.Obj.Name()+" spells "+got,
-				fmt.Sprintf("consumeOperatorToken returns %s after consuming %q but %s.Bytes() is %q", v.Obj.Name(), want, v.Obj.Name(), got))
+			r.Check(has && got == want, fmt.Sprintf("operator map (form %s)[%q]", f.name, string([]byte{byte(kv)})), k.Pos, v.Obj.Name()+" spells "+got,
+				fmt.Sprintf("the lexer returns %s after consuming %q but %s.Bytes() is %q", v.Obj.Name(), want, v.Obj.Name(), got))
+		}
+	}
+	for _, f := range forms {
+		if _, ok := claimed[f.name]; !ok {
+			r.Fail("operator map for form "+f.name, token.NoPos, "no package-level map[byte]TokenType spells the form "+f.name)
 		}
 	}
 	r.Floor("op*Tokens entries", total, 30)
@@ -367,26 +415,62 @@ func runIDTables(r *core.Run) {
 	isStart := func(c int) bool {
 		return c == '$' || c == '_' || (c >= 'a' && c <= 'z') || (c >= 'A' && c <= 'Z')
 	}
-	for _, tc := range []struct {
+	wants := []struct {
 		name string
 		want func(int) bool
 		doc  string
 	}{
-		{"identifierStartTable", isStart, "[$_A-Za-z]"},
-		{"identifierTable", func(c int) bool { return isStart(c) || (c >= '0' && c <= '9') }, "[$_0-9A-Za-z]"},
-	} {
-		t, err := boolTable(pk, tc.name)
-		if err != nil {
-			r.Unknown(tc.name, token.NoPos, err.Error())
+		{"identifier start table", isStart, "[$_A-Za-z]"},
+		{"identifier part table", func(c int) bool { return isStart(c) || (c >= '0' && c <= '9') }, "[$_0-9A-Za-z]"},
+	}
+	// the two ASCII class tables are found by type (package-level [256]bool) and matched to the class they are closest to
+	var tabs []string
+	sc := pk.Types.Scope()
+	for _, n := range sc.Names() {
+		v, ok := sc.Lookup(n).(*types.Var)
+		if !ok {
 			continue
 		}
+		if a, ok := v.Type().Underlying().(*types.Array); ok && a.Len() == 256 {
+			if b, ok := a.Elem().Underlying().(*types.Basic); ok && b.Kind() == types.Bool {
+				tabs = append(tabs, n)
+			}
+		}
+	}
+	used := map[string]bool{}
+	for _, tc := range wants {
+		bestName, bestDist := "", 257
+		var bestT *[256]bool
+		for _, n := range tabs {
+			if used[n] {
+				continue
+			}
+			t, err := boolTable(pk, n)
+			if err != nil {
+				continue
+			}
+			d := 0
+			for c := 0; c < 256; c++ {
+				if t[c] != tc.want(c) {
+					d++
+				}
+			}
+			if d < bestDist {
+				bestName, bestDist, bestT = n, d, t
+			}
+		}
+		if bestT == nil || bestDist > 16 {
+			r.Unknown(tc.name, token.NoPos, "no package-level [256]bool table of package js resembles "+tc.doc)
+			continue
+		}
+		used[bestName] = true
 		bad := -1
 		for c := 0; c < 256; c++ {
-			if t[c] != tc.want(c) {
+			if bestT[c] != tc.want(c) {
 				bad = c
 			}
 		}
-		r.Check(bad < 0, tc.name, token.NoPos, "equals "+tc.doc+" on all 256 byte values",
-			fmt.Sprintf("%s[%#x] = %v, but ASCII IdentifierStart/Part membership %s says %v", tc.name, bad, bad >= 0 && t[bad], tc.doc, bad >= 0 && tc.want(bad)))
+		r.Check(bad < 0, tc.name, token.NoPos, bestName+" equals "+tc.doc+" on all 256 byte values",
+			fmt.Sprintf("%s[%#x] = %v, but ASCII IdentifierStart/Part membership %s says %v", bestName, bad, bad >= 0 && bestT[bad], tc.doc, bad >= 0 && tc.want(bad)))
 	}
 }
